@@ -64,7 +64,7 @@ func (g *ctlGen) stmt(depth int, inLoop bool) string {
 		}
 		return fmt.Sprintf("%d %d %d { %s%s } for", a, b, c, use, g.body(depth-1, true))
 	case 11:
-		src := pick(r, []string{"[1 2 3]", "[]", "[(a) /b]", "(xy)", "()", "<< /k 5 >>"})
+		src := pick(r, []string{"[1 2 3]", "[]", "[(a) /b]", "(xy)", "()", "<< /k 5 >>", "<C3A941>", "<80FF>"})
 		pops := "pop "
 		if strings.HasPrefix(src, "<<") {
 			pops = "pop pop "
@@ -117,6 +117,9 @@ var controlFixed = []string{
 	"{ {1 2} } exec", "{ {1 2} 3 } exec", "{ 3 {1 2} } exec", "{ 0 {1 2} 3 } exec", "{ { { 7 } } } exec exec exec",
 	"3 { 1 exit } repeat", "3 { 1 } repeat", "0 { 1 } repeat", "1 1 3 { } for", "3 -1 1 { } for", "1 1 0 { } for", "0 0 3 { exit } for",
 	"1 2 10 { dup 6 eq {exit} if } for", "[1 2 3] { dup 2 eq {exit} if } forall", "(ab) { } forall", "<< /a 1 >> { } forall",
+	"/v 1 array 0 get def v", "/f 7 def 3 dict begin /f currentfile def f end", "/n 1 array 0 get def /n load", "5 dict begin /add 1 array 0 get def 1 2 add end",
+	"/k 1 array 0 get def 2 dict begin /k 5 def end k", "/p { q } def /q 1 array 0 get def p", "/cf currentfile def { cf } exec",
+	"<C3A9> {} forall", "<80FF41> {} forall", "<E282AC00FF> { 1 add } forall", "(\\351\\200) {} forall", "<F09F9880> {} forall count",
 	"{ 1 exit 2 } loop 3", "{ { exit } loop 5 exit } loop 6", "2 { 3 { 1 exit } repeat 2 } repeat", "exit", "1 stop 2", "{ 1 stop 2 } exec 3",
 	"3 { stop } repeat 4", "{ stop } loop", "1 1 3 { stop } for", "{exit} exec", "true {exit} if", "[1] {exit} forall 5 exit",
 	"/f { 1 } def f f", "/x 1 def 2 dict begin /x 2 def x end x", "/x 1 def /p { x } def 2 dict begin /x 2 def p end",
@@ -132,7 +135,7 @@ var plrmLoopCases = []struct{ prog, want string }{
 	{"0 1 1 4 {add} for", "10"}, {"1 2 6 {} for", "1 3 5"}, {"3 -1 1 {} for", "3 2 1"}, {"1 1 0 {} for", ""}, {"5 1 5 {} for", "5"},
 	{"0 4611686018427387904 9223372036854775807 {} for", "0 4611686018427387904"}, {"9223372036854775806 1 9223372036854775807 {} for", "9223372036854775806 9223372036854775807"},
 	{"-9223372036854775807 -1 -9223372036854775808 {} for", "-9223372036854775807 -9223372036854775808"},
-	{"4 {7} repeat", "7 7 7 7"}, {"0 {7} repeat", ""}, {"[1 2 3] {10 mul} forall", "10 20 30"}, {"(AB) {} forall", "65 66"}, {"0 {1 add dup 3 eq {exit} if} loop", "3"},
+	{"4 {7} repeat", "7 7 7 7"}, {"0 {7} repeat", ""}, {"[1 2 3] {10 mul} forall", "10 20 30"}, {"(AB) {} forall", "65 66"}, {"<C3A9> {} forall", "195 169"}, {"<80FF41> {} forall", "128 255 65"}, {"0 {1 add dup 3 eq {exit} if} loop", "3"},
 	{"1 1 3 {2 {dup exit} repeat} for", "1 1 2 2 3 3"},
 	// PLRM 8.2 `for`: real operands (its own example: 3 -.5 1 {} for)
 	{"0 0.5 1 {} for", "0 0.5 1"}, {"3 -.5 1 {} for", "3 2.5 2 1.5 1"}, {"1 1 2.5 {} for", "1 2"},
@@ -193,6 +196,8 @@ func suiteControl(o *suiteOut, r *rng, tier string, n int) {
 // ---------------------------------------------------------------- budget
 
 var runawayPrograms = []string{
+	"{ " + strings.Repeat("1 ", 499) + "}", "{ " + strings.Repeat("1 ", 501) + "}", "{ " + strings.Repeat("1 ", 700) + "} pop 5", "{ " + strings.Repeat("1 ", 3000),
+	"{ { " + strings.Repeat("x ", 600) + "} }", strings.Repeat("1 ", 499) + "{ 1 1 1 }", "{} loop", "0 1 100000 {} for", "true {} if {} exec 7", "100000 {} repeat", "[1 2 3] {} forall {} exec {} exec",
 	"/f {f} def f", "/f {f} def {f} loop", "/f {f 1} def f", "/f { 1 f } def f", "{ 1 } loop", "{ userdict begin } loop", "{ 1 dict begin } loop",
 	"/p [0] cvx def p 0 p put p", "/p {0 exec} def p 0 p put p", "{ {1} exec } loop", "/f { {f} exec } def f", "/f { true {f} if } def f",
 	"/f { 1 {f} repeat } def f", "/f { 0 1 1 {pop f} for } def f", "/f { [1] {pop f} forall } def f", "0 0 1 { } for", "0 0 1 { pop } for", "1 -0 5 {} for",
